@@ -1,19 +1,29 @@
-// ---- TRUSTED stand-ins: revm primitive value types used only through ==, Clone, Hash in this unit ----
-// (opaque identities; no arithmetic is available on them here)
+// ---- TRUSTED stand-ins: revm primitive value types ----
+// Address/B256/Bytecode are opaque identities (only ==, Clone, Hash). U256 is a 256-bit value with a
+// mathematical view; its arithmetic is available through _shared/u256.rs.
 pub type TxId = usize;
 #[derive(PartialEq, Eq, Structural, Clone, Copy, Hash)] pub struct Address(pub u64);
 #[derive(PartialEq, Eq, Structural, Clone, Copy, Hash)] pub struct B256(pub u64);
-#[derive(PartialEq, Eq, Structural, Clone, Copy, Hash)] pub struct U256(pub u64);
+#[derive(PartialEq, Eq, Structural, Clone, Copy, Hash)] pub struct U256(pub u128, pub u128);
 #[derive(PartialEq, Eq, Structural, Clone, Copy)] pub struct Bytecode(pub u64);
 #[derive(PartialEq, Eq, Structural, Clone, Copy)] pub struct AccountInfo { pub balance: U256, pub nonce: u64, pub code_hash: B256, pub code: Option<Bytecode> }
-impl U256 { pub const ZERO: U256 = U256(0); }
-pub enum EVMError<E> { Transaction(InvalidTransaction), Header(u8), Database(E), Custom(String) }
+impl U256 {
+    pub const ZERO: U256 = U256(0, 0);
+    pub const MAX: U256 = U256(u128::MAX, u128::MAX);
+    pub open spec fn view(self) -> nat { (self.0 as nat) * 0x1_0000_0000_0000_0000_0000_0000_0000_0000 + (self.1 as nat) }
+}
 #[derive(PartialEq, Eq, Structural, Clone, Copy)] pub struct InvalidTransaction(pub u64);
+#[derive(PartialEq, Eq, Structural, Clone, Copy)] pub struct ErrText(pub u64);
+pub enum EVMError<E> { Transaction(InvalidTransaction), Header(u8), Database(E), Custom(ErrText) }
 pub struct GrevmError<E> { pub txid: TxId, pub error: EVMError<E> }
-pub trait DatabaseRef { type Error; }
-#[verifier::external_body] proof fn axiom_key_models()
-    ensures vstd::std_specs::hash::obeys_key_model::<LocationAndType>(),
-            vstd::std_specs::hash::obeys_key_model::<Address>(),
-            vstd::std_specs::hash::obeys_key_model::<usize>(),
-{}
+/// revm::DatabaseRef: every answer is a function of the (immutable) database value
+pub trait DatabaseRef {
+    type Error;
+    spec fn basic_spec(&self, a: Address) -> Result<Option<AccountInfo>, Self::Error>;
+    fn basic_ref(&self, a: Address) -> (r: Result<Option<AccountInfo>, Self::Error>) ensures r == self.basic_spec(a);
+    spec fn code_spec(&self, h: B256) -> Result<Bytecode, Self::Error>;
+    fn code_by_hash_ref(&self, h: B256) -> (r: Result<Bytecode, Self::Error>) ensures r == self.code_spec(h);
+    spec fn storage_spec(&self, a: Address, i: U256) -> Result<U256, Self::Error>;
+    fn storage_ref(&self, a: Address, i: U256) -> (r: Result<U256, Self::Error>) ensures r == self.storage_spec(a, i);
+}
 pub fn drop<T>(t: T) {}
